@@ -79,20 +79,44 @@ def _run_one(arg) -> dict:
     return {"name": m.name, "status": "ok", "how": hits[0].key}
 
 
+def _run_meta(arg) -> dict:
+    """metamorphic variant: the whole tree rewritten by a behaviour-preserving transformation must yield exactly the baseline findings"""
+    pid, mode, baseline = arg
+    from .metamorph import tree_overlay
+    from .run import run_property
+
+    name = f"metamorphic:{mode}"
+    overlay, stats = tree_overlay(REPO, SRC_SUBDIR, mode)
+    try:
+        code, rep = run_property(pid, "quick", overlay=overlay, quiet=True, write=False)
+    except AnalysisError as e:
+        return {"name": name, "status": "FAILED", "why": f"behaviour-preserving rewrite `{mode}` of the tree raised analysis error: {e}"[:300]}
+    keys = {f.key for f in rep.findings}
+    extra, lost = sorted(keys - baseline), sorted(baseline - keys)
+    if extra or lost:
+        return {"name": name, "status": "FAILED",
+                "why": (f"behaviour-preserving rewrite `{mode}` changes the findings: " + ("new " + "; ".join(extra) if extra else "") + (" lost " + "; ".join(lost) if lost else ""))[:400]}
+    return {"name": name, "status": "ok", "how": f"{stats['files']} files rewritten, {stats['rewrites']} rewrites, findings identical ({len(keys)})"}
+
+
 def mutants_for(pid: str) -> list[Mutant]:
     mod = importlib.import_module("sa.mutants")
     return [m for m in mod.MUTANTS if m.prop == pid]
 
 
 def run_for(pid: str, quiet: bool = False, baseline_keys=()) -> dict:
+    from .metamorph import MODES
+
     ms = mutants_for(pid)
-    if not ms:
-        return {"variants": 0}
-    with ProcessPoolExecutor(max_workers=min(16, len(ms))) as ex:
-        results = list(ex.map(_run_one, [(m, frozenset(baseline_keys)) for m in ms]))
-    failed = [r for r in results if r["status"] == "FAILED"]
+    base = frozenset(baseline_keys)
+    with ProcessPoolExecutor(max_workers=16) as ex:
+        meta_f = [ex.submit(_run_meta, (pid, mode, base)) for mode in MODES]
+        results = list(ex.map(_run_one, [(m, base) for m in ms]))
+        meta = [f.result() for f in meta_f]
+    failed = [r for r in results + meta if r["status"] == "FAILED"]
     summary = {
         "variants": len(ms),
+        "metamorphic": meta,
         "seeded_faults": sum(1 for m in ms if m.expect == "fire"),
         "benign_variants": sum(1 for m in ms if m.expect == "silent"),
         "ok": sum(1 for r in results if r["status"] == "ok"),
@@ -101,7 +125,8 @@ def run_for(pid: str, quiet: bool = False, baseline_keys=()) -> dict:
         "results": results,
     }
     if not quiet:
-        print(f"[{pid}] self-test: {summary['ok']}/{len(ms)} variants behave as expected, {len(summary['stale'])} stale, {len(failed)} failed")
+        print(f"[{pid}] self-test: {summary['ok']}/{len(ms)} variants behave as expected, {len(summary['stale'])} stale, {len(failed)} failed; "
+              f"metamorphic: {sum(1 for r in meta if r['status'] == 'ok')}/{len(meta)} whole-tree rewrites leave the findings unchanged")
     if failed:
         raise AnalysisError(f"checker self-test failed for {pid}: " + "; ".join(f"{r['name']}: {r['why']}" for r in failed))
     return summary
